@@ -329,7 +329,7 @@ jsoncons::expected<void,std::error_code> parse_primitive(jsoncons::span<char> to
                     num_str.push_back(c);
                     ++i;
                 }
-                else if (c == 'e' || c == 'E')
+                else if ((c == 'e' || c == 'E') && decimal_places > 0)
                 {
                     state = parse_number_state::exponent_sign;
                     ++i;
@@ -374,6 +374,12 @@ jsoncons::expected<void,std::error_code> parse_primitive(jsoncons::span<char> to
                 not_a_number = true;
                 break;
         }
+    }
+
+    if ((state == parse_number_state::fraction && decimal_places == 0)
+        || ((state == parse_number_state::exponent_sign || state == parse_number_state::exponent_value) && exponent_str.empty()))
+    {
+        not_a_number = true; // a decimal point or an exponent marker must be followed by digits
     }
 
     if (not_a_number)
